@@ -4,7 +4,9 @@ from lib import vlib, models
 from checks import common
 
 PID = "C18"
-PLANT = {"free": "60 0 R", "gap": "61 0 R", "beyond": "99 0 R"}
+# concrete dangling references: (label, kind of the spec's table, reference); /Size is 70, 60 is a free entry, 61 lies in a gap
+PLANT = {"free": ("free", "60 0 R"), "gap": ("gap", "61 0 R"), "beyond": ("beyond", "99 0 R"),
+         "at-size": ("beyond", "70 0 R"), "size+1": ("beyond", "71 0 R"), "huge": ("beyond", "4000000000 0 R")}
 
 
 def field_cases(tlc_cases):
@@ -32,11 +34,11 @@ def field_cases(tlc_cases):
                 variants.append(("element", "[%s]"))
             if t.startswith("HashMap<"):
                 variants.append(("element", "<< /E %s >>"))
-            for kind, ref in PLANT.items():
+            for kind, (mkind, ref) in PLANT.items():
                 for mode in ("strict", "tolerant"):
                     for vname, shape in variants:
                         optional = role != "required"
-                        ideal, mech = table.get((kind, car, mode, optional), ("absent", "absent"))
+                        ideal, mech = table.get((mkind, car, mode, optional), ("absent", "absent"))
                         expect = "err_named" if ideal == "err_named" else "ok"
                         r = role if vname == "entry" else "element"
                         # insert the planted entry (replacing an existing one of the minimal dictionary)
@@ -50,7 +52,7 @@ def field_cases(tlc_cases):
                                                "kind": kind, "mode": mode, "expect": expect, "asbuilt": "err" if mech not in ("absent", "value") else "ok"}))
             if role == "required" and f["carrier"] in ("prim", "struct", "mayberef", "rcref"):
                 # required entry replaced by a dangling reference: must be an error naming the entry
-                for kind, ref in PLANT.items():
+                for kind, (mkind, ref) in PLANT.items():
                     for mode in ("strict", "tolerant"):
                         body = base[2:-2]
                         import re
